@@ -1,4 +1,4 @@
-import Pymeeus.Refine.Finders
+import Pymeeus.Refine.FindersJde
 /-
 C13 — Planetary event finders return real events, in order, none skipped.
 
@@ -13,10 +13,14 @@ What is carried here is the SELECTION LOGIC of the statement: "as the query epoc
 result never moves backwards, consecutive distinct results are one period apart within that
 period's natural variation so that no event is skipped or repeated, the result lies within one
 period of the query, ... refuse queries outside -2000..4000 with ValueError".
+The first part states them for every real value `y` of `epoch.year()`; the last part ("for every query
+JDE") composes them with the exact calendar model: `Epoch.year` (templates/EpochCal.lean, theorems of
+Props/C16.lean) computes `y` from the rational `_jde` of the query, and the returned object is
+`Epoch(jde0 + corr)` of templates/EpochOps.lean, which stores `jde0 + corr` exactly (Refine/EpochReal.lean).
 NOT carried by any theorem (measured by harness/c13.py on the implementation, see MANIFEST):
 that the returned instant is an event of the VSOP87 theory (agreement of two independent
-series), `Epoch.year`, the final `Epoch(jde)` round trip, and everything after the first
-approximation in perihelion_aphelion / passage_nodes (VSOP87, Interpolation, two-body motion).
+series), and everything after the first approximation in perihelion_aphelion / passage_nodes
+(VSOP87, Interpolation, two-body motion).
 -/
 namespace Pymeeus.C13
 open Pymeeus Pymeeus.PR Pymeeus.GenR Pymeeus.Finders Pymeeus.Finders.Data Pymeeus.Refine.Finders
@@ -160,10 +164,10 @@ theorem result_near_query : ∀ r ∈ generatedFinders, ∀ y a : ℝ, finder_ra
   linarith
 
 /-- "the result lies within one period of the query", numerically: for every finder
-    `B/2 + |c₀| + C_f + 17 < B` (17 days bound the calendar term), so the model's result is less than one
-    period from the query.  Decided by the kernel from the source constants. -/
+    `B/2 + |c₀| + C_f + 18 < B` (18 days bound the calendar term, `query_calendar_term` below), so the model's
+    result is less than one period from the query.  Decided by the kernel from the source constants. -/
 theorem within_one_period_margin : ∀ r ∈ generatedFinders,
-    r.B.toRat / 2 + qabs r.corrMid + r.corrRad + 17 < r.B.toRat := by decide +kernel
+    r.B.toRat / 2 + qabs r.corrMid + r.corrRad + 18 < r.B.toRat := by decide +kernel
 
 /-! ### perihelion_aphelion: the first approximation `k = round(C (year − Y0))`, `jde = J0 + k (P + k Q)` -/
 
@@ -223,6 +227,153 @@ theorem pa_first_approximation_never_backwards : ∀ r ∈ generatedPA, ∀ (p :
         ≤ ((kround (ofDec r.C * (y2 - ofDec r.Y0) + paOff r p) : ℤ) : ℝ) := by exact_mod_cast l
     linarith
 
+/-! ### For every query JDE: `Epoch.year()` of the query, the finder, the returned `Epoch`
+
+`finder_from_jde r j` is the whole finder as a function of the `_jde` of the query epoch, a rational `j`
+(every binary64 is one): `GenQ.year j` (exact model of `Epoch.year`), the finder over ℝ, `Epoch(jde0 + corr)`.
+`jLo = 990557.5` is -2000 January 1.0, `jHi = 3182029.5` is 4000 January 1.0, `jMax = 5373484.5` is
+10000 January 1.0, where `Epoch.year` itself stops answering (`datetime.date`). -/
+
+/-- `Epoch.year()` answers at every instant `0 ≤ j < jMax` and is strictly increasing in the JDE
+    (composition with C16.year_strictly_increasing), hence so is the period count's argument. -/
+theorem query_year_strictly_increasing : ∀ j1 j2 : ℚ, 0 ≤ j1 → j1 < j2 → j2 < jMax →
+    ∃ v1 v2, GenQ.year j1 = .ok v1 ∧ GenQ.year j2 = .ok v2 ∧ v1 < v2 := by
+  intro j1 j2 h0 hlt hmax
+  obtain ⟨v1, e1⟩ := year_total j1 h0 (by linarith)
+  obtain ⟨v2, e2⟩ := year_total j2 (by linarith) hmax
+  exact ⟨v1, v2, e1, e2, year_lt h0 hlt hmax e1 e2⟩
+
+/-- "refuse queries outside -2000..4000 with ValueError", on the query itself: `ValueError` iff the query's
+    `year()` is outside [-2000, 4000], i.e. iff the query instant is before -2000 January 1.0 or after
+    4000 January 1.0 (the predicate `range_refusal` of harness/c13.py). -/
+theorem range_check_jde : ∀ r ∈ generatedFinders, ∀ j : ℚ, 0 ≤ j → j < jMax →
+    (∃ v, GenQ.year j = .ok v ∧ (finder_from_jde r j = .error .valueError ↔ (v < -2000 ∨ 4000 < v))) ∧
+    (finder_from_jde r j = .error .valueError ↔ (j < jLo ∨ jHi < j)) := by
+  intro r hr j h0 hmax
+  have h := okR_of_ok (all_finders_ok r hr)
+  obtain ⟨v, ev⟩ := year_total j h0 hmax
+  obtain ⟨r1, r2⟩ := year_range h0 hmax ev
+  have key : finder_from_jde r j = .error .valueError ↔ (v < -2000 ∨ 4000 < v) := by
+    rw [finder_from_jde_spec h ev]
+    by_cases c : v < -2000 ∨ 4000 < v <;> simp [c]
+  exact ⟨⟨v, ev, key⟩, by rw [key, r1, r2]⟩
+
+/-- The returned object: for a query in the accepted range the finder returns an `Epoch` whose stored JDE is
+    exactly `jde0 + corr` of the period count chosen for the query's `year()` — the detour of the constructor
+    through `get_full_date` and `_compute_jde` is the identity in exact arithmetic (Refine/EpochReal.lean;
+    C02.set_jde_exact for rationals). -/
+theorem returned_epoch_exact : ∀ r ∈ generatedFinders, ∀ j : ℚ, jLo ≤ j → j ≤ jHi →
+    ∃ v, GenQ.year j = .ok v ∧ -2000 ≤ v ∧ v ≤ 4000 ∧
+      finder_from_jde r j = .ok ({ jde := finder_result r (finder_k r ((v : ℚ) : ℝ)) }, finder_elon r (finder_k r ((v : ℚ) : ℝ))) := by
+  intro r hr j h1 h2
+  have h := okR_of_ok (all_finders_ok r hr)
+  have h0 : 0 ≤ j := le_trans jLo_nonneg h1
+  have hmax : j < jMax := lt_of_le_of_lt h2 jHi_lt_jMax
+  obtain ⟨v, ev⟩ := year_total j h0 hmax
+  obtain ⟨r1, r2⟩ := year_range h0 hmax ev
+  have c1 : ¬ v < -2000 := fun hh => absurd (r1.1 hh) (not_lt.2 h1)
+  have c2 : ¬ 4000 < v := fun hh => absurd (r2.1 hh) (not_lt.2 h2)
+  refine ⟨v, ev, not_lt.1 c1, not_lt.1 c2, ?_⟩
+  rw [finder_from_jde_spec h ev]
+  simp [c1, c2]
+
+/-- "As the query epoch advances the result never moves backwards", on the returned Epochs: for query instants
+    `j1 ≤ j2` that are answered, the JDE of the first returned Epoch is ≤ that of the second. -/
+theorem returned_epoch_never_moves_backwards : ∀ r ∈ generatedFinders, ∀ (j1 j2 : ℚ) (e1 e2 : Epoch) (a1 a2 : Option ℝ),
+    0 ≤ j1 → j1 ≤ j2 → j2 < jMax → finder_from_jde r j1 = .ok (e1, a1) → finder_from_jde r j2 = .ok (e2, a2) →
+    e1.jde ≤ e2.jde := by
+  intro r hr j1 j2 e1 e2 a1 a2 h0 hle hmax f1 f2
+  have h := okR_of_ok (all_finders_ok r hr)
+  obtain ⟨v1, y1, _, _, _, q1⟩ := from_jde_ok_inv h h0 (lt_of_le_of_lt hle hmax) f1
+  obtain ⟨v2, y2, _, _, _, q2⟩ := from_jde_ok_inv h (le_trans h0 hle) hmax f2
+  have hv : ((v1 : ℚ) : ℝ) ≤ ((v2 : ℚ) : ℝ) := Rat.cast_le.2 (year_le h0 hle hmax y1 y2)
+  exact (result_never_moves_backwards r hr _ _ _ _ hv q1 q2).1
+
+/-- "consecutive distinct results are one synodic period apart within that period's natural variation", on the
+    returned Epochs: if the second query falls in the next period count, the stored JDEs differ by `B` within `2 C_f`. -/
+theorem returned_epochs_one_period_apart : ∀ r ∈ generatedFinders, ∀ (j1 j2 v1 v2 : ℚ) (e1 e2 : Epoch) (a1 a2 : Option ℝ),
+    0 ≤ j1 → j1 < jMax → 0 ≤ j2 → j2 < jMax → GenQ.year j1 = .ok v1 → GenQ.year j2 = .ok v2 →
+    finder_k r ((v2 : ℚ) : ℝ) = finder_k r ((v1 : ℚ) : ℝ) + 1 →
+    finder_from_jde r j1 = .ok (e1, a1) → finder_from_jde r j2 = .ok (e2, a2) →
+    ofDec r.B - 2 * ((r.corrRad : ℚ) : ℝ) ≤ e2.jde - e1.jde ∧ e2.jde - e1.jde ≤ ofDec r.B + 2 * ((r.corrRad : ℚ) : ℝ) := by
+  intro r hr j1 j2 v1 v2 e1 e2 a1 a2 h01 hm1 h02 hm2 y1 y2 hk f1 f2
+  have h := okR_of_ok (all_finders_ok r hr)
+  obtain ⟨w1, z1, _, _, _, q1⟩ := from_jde_ok_inv h h01 hm1 f1
+  obtain ⟨w2, z2, _, _, _, q2⟩ := from_jde_ok_inv h h02 hm2 f2
+  rw [y1] at z1; cases z1
+  rw [y2] at z2; cases z2
+  have := consecutive_results_one_period_apart r hr _ _ _ _ q1 q2 hk
+  exact ⟨this.1, this.2.1⟩
+
+/-- The calendar term, proved: on the accepted range the query instant is within 18 days of
+    `365.2425·year() + 1721060` (17.5 days on -2000 January 1: the Julian calendar drifts 0.0075 day per year
+    against the Gregorian mean year used by the finders' period count). -/
+theorem query_calendar_term : ∀ j : ℚ, jLo ≤ j → j ≤ jHi →
+    ∃ v, GenQ.year j = .ok v ∧ |365.2425 * v + 1721060 - j| ≤ 18 := by
+  intro j h1 h2
+  have h0 : 0 ≤ j := le_trans jLo_nonneg h1
+  have hmax : j < jMax := lt_of_le_of_lt h2 jHi_lt_jMax
+  obtain ⟨v, ev⟩ := year_total j h0 hmax
+  obtain ⟨r1, r2⟩ := year_range h0 hmax ev
+  have c1 : ¬ v < -2000 := fun hh => absurd (r1.1 hh) (not_lt.2 h1)
+  have c2 : ¬ 4000 < v := fun hh => absurd (r2.1 hh) (not_lt.2 h2)
+  exact ⟨v, ev, calendar_term h0 hmax ev (not_lt.1 c1) (not_lt.1 c2)⟩
+
+/-- "the result lies within one period of the query", on the query instant and the returned Epoch, calendar
+    term included: `|returned JDE − query JDE| ≤ B/2 + |c₀| + C_f + 18 < B`. -/
+theorem returned_epoch_within_one_period_of_query : ∀ r ∈ generatedFinders, ∀ (j : ℚ) (e : Epoch) (a : Option ℝ),
+    0 ≤ j → j < jMax → finder_from_jde r j = .ok (e, a) →
+    |e.jde - ((j : ℚ) : ℝ)| ≤ ofDec r.B / 2 + |((r.corrMid : ℚ) : ℝ)| + ((r.corrRad : ℚ) : ℝ) + 18 ∧
+    ofDec r.B / 2 + |((r.corrMid : ℚ) : ℝ)| + ((r.corrRad : ℚ) : ℝ) + 18 < ofDec r.B := by
+  intro r hr j e a h0 hmax f
+  have h := okR_of_ok (all_finders_ok r hr)
+  obtain ⟨v, ev, hv1, hv2, _, q⟩ := from_jde_ok_inv h h0 hmax f
+  have n := (result_near_query r hr _ _ q).2
+  have c := calendar_term h0 hmax ev hv1 hv2
+  have cR : |(365.2425 : ℝ) * ((v : ℚ) : ℝ) + 1721060 - ((j : ℚ) : ℝ)| ≤ 18 := by
+    have : ((|365.2425 * v + 1721060 - j| : ℚ) : ℝ) ≤ ((18 : ℚ) : ℝ) := Rat.cast_le.2 c
+    rw [Rat.cast_abs] at this
+    have e2 : (((365.2425 * v + 1721060 - j : ℚ)) : ℝ) = (365.2425 : ℝ) * ((v : ℚ) : ℝ) + 1721060 - ((j : ℚ) : ℝ) := by
+      push_cast; norm_num
+    rw [e2] at this
+    norm_num at this ⊢
+    exact this
+  constructor
+  · have t := abs_add_le (e.jde - (365.2425 * ((v : ℚ) : ℝ) + 1721060)) ((365.2425 : ℝ) * ((v : ℚ) : ℝ) + 1721060 - ((j : ℚ) : ℝ))
+    have e3 : e.jde - (365.2425 * ((v : ℚ) : ℝ) + 1721060) + ((365.2425 : ℝ) * ((v : ℚ) : ℝ) + 1721060 - ((j : ℚ) : ℝ))
+        = e.jde - ((j : ℚ) : ℝ) := by ring
+    rw [e3] at t
+    linarith
+  · have m := within_one_period_margin r hr
+    have mR : (((r.B.toRat / 2 + qabs r.corrMid + r.corrRad + 18 : ℚ)) : ℝ) < ((r.B.toRat : ℚ) : ℝ) := Rat.cast_lt.2 m
+    push_cast at mR
+    rw [cast_qabs] at mR
+    exact mR
+
+/-- perihelion_aphelion, first approximation, on the query JDE: as the query instant advances over
+    -2000..4000 the first approximation `jde` (computed from the query's `year()`) never moves backwards. -/
+theorem pa_first_approximation_never_backwards_jde : ∀ r ∈ generatedPA, ∀ (p : Bool) (j1 j2 : ℚ),
+    jLo ≤ j1 → j1 ≤ j2 → j2 ≤ jHi →
+    ∃ x1 x2, pa_from_jde r j1 p = .ok x1 ∧ pa_from_jde r j2 p = .ok x2 ∧ x1 ≤ x2 := by
+  intro r hr p j1 j2 h1 hle h2
+  have h01 : 0 ≤ j1 := le_trans jLo_nonneg h1
+  have hm2 : j2 < jMax := lt_of_le_of_lt h2 jHi_lt_jMax
+  obtain ⟨v1, e1⟩ := year_total j1 h01 (lt_of_le_of_lt hle hm2)
+  obtain ⟨v2, e2⟩ := year_total j2 (le_trans h01 hle) hm2
+  obtain ⟨a1, _⟩ := year_range h01 (lt_of_le_of_lt hle hm2) e1
+  obtain ⟨_, b2⟩ := year_range (le_trans h01 hle) hm2 e2
+  have c1 : (-2000 : ℝ) ≤ ((v1 : ℚ) : ℝ) := by
+    have : -2000 ≤ v1 := not_lt.1 (fun hh => absurd (a1.1 hh) (not_lt.2 h1))
+    have := (Rat.cast_le (K := ℝ)).2 this
+    push_cast at this; exact this
+  have c2 : ((v2 : ℚ) : ℝ) ≤ 4000 := by
+    have : v2 ≤ 4000 := not_lt.1 (fun hh => absurd (b2.1 hh) (not_lt.2 h2))
+    have := (Rat.cast_le (K := ℝ)).2 this
+    push_cast at this; exact this
+  have hv : ((v1 : ℚ) : ℝ) ≤ ((v2 : ℚ) : ℝ) := Rat.cast_le.2 (year_le h01 hle hm2 e1 e2)
+  refine ⟨_, _, by unfold pa_from_jde; rw [e1], by unfold pa_from_jde; rw [e2], ?_⟩
+  exact pa_first_approximation_never_backwards r hr p _ _ c1 hv c2
+
 /-! ### The hypotheses are satisfiable -/
 
 example : Mercury_inferior_conjunction ∈ generatedFinders := by simp [generatedFinders]
@@ -241,5 +392,14 @@ example : ∀ r ∈ generatedFinders, ∃ y0 y1 : ℝ, finder_k r y0 = 0 ∧ fin
   have h := okR_of_ok (all_finders_ok r hr)
   exact ⟨_, _, by rw [finder_k_eq, qarg_attains h 0, kround_intCast],
     by rw [finder_k_eq, qarg_attains h 1, kround_intCast]⟩
+
+/-- J2000.0 (JDE 2451545) is an accepted query of every finder: the JDE-level theorems are not vacuous. -/
+example : ∀ r ∈ generatedFinders, ∃ e a, finder_from_jde r 2451545 = .ok (e, a) := by
+  intro r hr
+  obtain ⟨v, _, _, _, hres⟩ := returned_epoch_exact r hr 2451545 (by unfold jLo; norm_num) (by unfold jHi; norm_num)
+  exact ⟨_, _, hres⟩
+/-- a refused query instant: 4000 January 2.0 -/
+example : ∀ r ∈ generatedFinders, finder_from_jde r 3182030.5 = .error .valueError :=
+  fun r hr => (range_check_jde r hr 3182030.5 (by norm_num) (by unfold jMax; norm_num)).2.2 (Or.inr (by unfold jHi; norm_num))
 
 end Pymeeus.C13
